@@ -10,34 +10,47 @@ ID = "C18"
 LEVEL = "proof"
 LEAN_IMPORTS = ["WM.Props.C18"]
 THEOREMS = ["WM.C18.mp", "WM.C18.mp_multisegment", "WM.C18.mp_assignment_invisible", "WM.C18.subWriter_eq",
-            "WM.C18.buffered_adds_partial", "WM.C18.async"]
-PARTIAL = {"WM.C18.mp": "C18_storage is not a Lean statement (files are abstracted in the model; back-ends are compared end to "
-                        "end only); the BufferedWriter statement is kept as `def WM.C18.buffered_full : Prop` over an executable "
-                        "model of BufferedWriter (commit/add/delete/update/close) and is checked by the end-to-end stream "
-                        "(own searcher after every call, dump after close) but not proved",
-           "WM.C18.buffered_adds_partial": "covers add_document / automatic flush at the limit / close(); delete and update "
-                                           "calls on a BufferedWriter are in buffered_full only (stated, executable, checked "
-                                           "end to end, not proved)",
+            "WM.C18.buffered", "WM.C18.buffered_step_sim", "WM.C18.storage", "WM.C18.storage_instances", "WM.C18.async"]
+PARTIAL = {"WM.C18.mp": "stated for the sub-writers every sub-process produces (SubsOf: each ran add_document on its share and "
+                        "returned its segment); a sub-process that dies or whose result never reaches the parent is outside "
+                        "the theorem — see ASSUMPTIONS (result delivery) and the mp:sub-writer-failure scenario",
+           "WM.C18.mp_multisegment": "as mp: every sub-writer's result is assumed to arrive",
+           "WM.C18.storage": "the storage is an abstract map of named blobs (segments, TOC) with the two map laws; that "
+                             "FileStorage (mmap on/off), RamStorage, copy_to_ram and compound files satisfy them is compared "
+                             "end to end here and modelled byte-wise by C20 (compound) — not derived from the Python classes",
+           "WM.C18.buffered": "deletion by document number on a BufferedWriter and the period timer are outside the theorem "
+                              "(the Buffered model's delete_document is tied to the code by the correspondence stream)",
            "WM.C18.async": "the replay is the definition of the model (asyncReplay = session on the TOC at lock time); thread "
                            "timing is not modelled"}
 RULE = ("one world x {FileStorage mmap on/off, RamStorage, copy_to_ram} x {compound, loose} x {plain SegmentWriter, "
         "MpWriter procs 1..3 x batch sizes x merged/multisegment, SerialMpWriter, AsyncWriter with/without a decoy lock "
         "holder, BufferedWriter limit 1..5 probed through its own searcher after every call}; every configuration's "
         "canonical dump is compared with the Lean dictionary and pairwise with the plain FileStorage run; non-trivial = "
-        "a non-plain front-end committed documents; distinct = distinct (world, configuration)")
+        "a non-plain front-end committed documents; distinct = distinct (world, configuration); plus 2 (quick) / 8 MpWriter "
+        "runs in which one document kills a sub-process (must be reported, never committed around)")
 ASSUMPTIONS = c07.ASSUMPTIONS + [
     "multiprocessing queues, thread scheduling, the flush timer and mmap are not modelled: a schedule is represented by "
     "its outcome (which sub-writer got which documents in which order; at which point the async writer obtained the lock)",
+    "RESULT-DELIVERY: every sub-writer process of an MpWriter finishes and its (run, fieldnames, segment) result reaches the "
+    "parent. MpWriter._commit reads the results with resultqueue.get(timeout=1) / `except queue.Empty: pass`: a missing "
+    "result is silently dropped together with every document that sub-writer indexed. After task.join() a result that was "
+    "put is in the pipe, so in practice this is the path of a sub-process that died (a document raising in it); the check "
+    "exercises exactly that (mp:sub-writer-failure scenario, known finding, repaired by `fix: MpWriter raises when a "
+    "sub-writer process died ...`); a result delayed by more than the timeout without the process dying is not modelled",
 ]
 TRUSTED = c06.TRUSTED
 MANIFEST = {
     "level_text": "Lean theorems over models of MpWriter._merge_subsegments / multisegment adoption (every assignment of "
-                  "documents to sub-writers gives the sequential content; well-formed term index), BufferedWriter (its "
-                  "reader = committed + buffered at every point, nothing buffered after close) and AsyncWriter (replay = "
-                  "direct application when the lock is obtained). Tied to whoosh by running one world through the "
-                  "configuration product and comparing canonical dumps with the Lean dictionary and pairwise.",
-    "level_note": "partial: schedules appear only as outcome sets; storage back-ends are compared end to end (the byte-level "
-                  "storage laws belong to C20's compound/structfile models).",
+                  "documents to sub-writers gives the sequential content; well-formed term index), BufferedWriter (any "
+                  "sequence of add/update/delete-by-term/-query calls with flushes at the limit: its own reader = the "
+                  "dictionary = committed + buffered at every point, close() leaves nothing unsaved), AsyncWriter (replay = "
+                  "direct application when the lock is obtained) and an abstract storage (commit/open round trip over any "
+                  "store satisfying the map laws; dictionary and directory instances). Tied to whoosh by running one world "
+                  "through the configuration product and comparing canonical dumps with the Lean dictionary, pairwise, and "
+                  "(SerialMpWriter layout, BufferedWriter reader after every call) with the Lean models.",
+    "level_note": "partial: schedules appear only as outcome sets; that the concrete storage classes satisfy the map laws is "
+                  "checked end to end, not derived (C20 models compound files byte-wise); BufferedWriter deletion by number "
+                  "and the flush timer are outside the theorem.",
     "technique": c07.MANIFEST["technique"],
 }
 PROBES = c07.PROBES
@@ -61,16 +74,21 @@ def _configs(rng, tier):
         if fe == "serialmp":
             c.update(procs=rng.choice([1, 2, 3]))
         if fe == "async":
-            c.update(decoy=[rng.random() < 0.6 for _ in range(5)])
+            # per session: no other writer / one that leaves after commit() was called / one that leaves before
+            c.update(decoy=[rng.choice([False, "late", "late", "early", "early"]) for _ in range(5)], storage="file")
+        c["limitmb"] = rng.choice([128, 128, 0.0004, 0.002, 0.01])
         cfgs.append(c)
     return cfgs
 
 
 def _world(seed_tuple):
+    if seed_tuple[0] == "corpus":
+        rec = io.load_corpus(seed_tuple[1])
+        return rec["world"], rec["cfgs"], rec.get("limit", 3)
     pid, seed, tier, i = seed_tuple
     rng = random.Random("%s:%s:world:%d" % (pid, seed, i))
     w = io.gen_world(rng, disciplined=True, schema_changes=rng.random() < 0.4, raw_docnums=False, groups=rng.random() < 0.6,
-                     nsessions=rng.choice([1, 2, 3, 4]), maxops=rng.choice([3, 5, 8]), allow_clear=False, malformed=False)
+                     nsessions=rng.choice([1, 2, 3, 4]), maxops=rng.choice([3, 5, 8]), allow_clear=True, malformed=False)
     return w, _configs(rng, tier), rng.choice([1, 2, 3, 5])
 
 
@@ -81,8 +99,15 @@ def _run_case(seed_tuple):
     for cfg in cfgs:
         base = io.new_scratch("wverif-C18-")
         try:
-            with io.Watchdog(60):
-                real = io.run_frontend(world, cfg, base, probes=PROBES, async_decoy=cfg.get("decoy"))
+            try:
+                with io.Watchdog(60):
+                    real = io.run_frontend(world, cfg, base, probes=PROBES, async_decoy=cfg.get("decoy"))
+            except TimeoutError:
+                # a loaded machine can starve the sub-processes: once more, with a long limit, in a fresh directory
+                shutil.rmtree(base, ignore_errors=True)
+                base = io.new_scratch("wverif-C18-")
+                with io.Watchdog(240):
+                    real = io.run_frontend(world, cfg, base, probes=PROBES, async_decoy=cfg.get("decoy"))
             out["runs"].append({"world": world, "cfg": cfg, "real": real})
         except Exception as e:  # noqa
             import traceback
@@ -103,6 +128,54 @@ def _run_case(seed_tuple):
     finally:
         shutil.rmtree(base, ignore_errors=True)
     return out
+
+
+SIG_MPFAIL = "mp:sub-writer-failure:commit succeeds without the documents of the dead sub-writer"
+
+
+def _run_mpfail(params):
+    io.allow_children()
+    base = io.new_scratch("wverif-C18-")
+    try:
+        with io.Watchdog(120):
+            return io.run_mp_failure(params, base)
+    except Exception as e:  # noqa
+        import traceback
+        return {"params": params, "crash": "%s: %s" % (type(e).__name__, e), "trace": traceback.format_exc()[-1500:]}
+    finally:
+        shutil.rmtree(base, ignore_errors=True)
+
+
+def check_mp_failure(ctx, r):
+    """A document that kills a sub-writer process must not be swallowed: either the caller is told
+    (add_document or commit raises) and a failed commit leaves the index as it was and writable, or
+    every document whose add_document returned is in the index."""
+    case = {"mpfail": r["params"]}
+    if "crash" in r:
+        ctx.violation("mp:sub-writer-failure:scenario raised %s" % r["crash"].split(":")[0], case, "no exception",
+                      r["crash"] + "\n" + r.get("trace", ""), "the MpWriter failure scenario raised or hung")
+        return
+    told = bool(r["add_errors"]) or r["commit"] != "ok"
+    if r["commit"] == "ok":
+        want = sorted(set(r["accepted"]) & set(r["good"])) + ["old"]
+        lost = sorted(set(want) - set(r["stored"]))
+        if lost or not told:
+            ctx.violation(SIG_MPFAIL, case, {"stored": sorted(want), "an exception at": "add_document or commit"},
+                          {"stored": r["stored"], "lost": lost, "add_errors": r["add_errors"], "commit": r["commit"]},
+                          "a document that raised inside a sub-process killed it; commit() ignored the missing result "
+                          "and reported success without every document that sub-writer had indexed")
+    else:
+        if r["stored"] != ["old"] or r["relock"] != "ok":
+            ctx.violation("mp:sub-writer-failure:failed commit leaves the index changed or locked", case,
+                          {"stored": ["old"], "relock": "ok"}, {"stored": r["stored"], "relock": r["relock"],
+                                                                "commit": r["commit"]},
+                          "commit() raised but the index is not as before / still locked")
+    ctx.stat("mpfail:%s:%s" % (r["params"]["kind"], "told" if told else "silent"))
+    ctx.case(("mpfail", ctx.seed, sexp_key(r["params"])), nontrivial=True)
+
+
+def sexp_key(d):
+    return tuple(sorted((k, str(v)) for k, v in d.items()))
 
 
 def _flat_sessions(steps):
@@ -135,8 +208,10 @@ def check_frontend_run(ctx, run, reply, ref):
                                   "a call raised under one front-end only")
         exp = io.expected_dump(tables, ms["spec"])
         c07._against_spec(ctx, dict(where, frontend=fe), tables, ms["spec"], exp, d)
-        if fe == "plain" and [tuple(x) for x in d["layout"]] != [tuple(x) for x in ms["toc"]]:
-            ctx.divergence("segment-layout", where, ms["toc"], d["layout"])
+        c07._reader_consistency(ctx, dict(where, frontend=fe), tables, d)
+        if fe in ("plain", "async") and [tuple(x) for x in d["layout"]] != [tuple(x) for x in ms["toc"]]:
+            # (an AsyncWriter is a plain writer as soon as it has the lock: same layout, same merge decisions)
+            ctx.divergence("segment-layout:%s" % fe, where, ms["toc"], d["layout"])
         gv = io.group_violation(world, d["layout"])
         if gv is not None:
             ctx.violation("%s:group-not-adjacent" % fe, where, gv[0], gv[1],
@@ -260,8 +335,10 @@ def check_buffered(ctx, case, reply):
 
 
 def run(ctx):
-    n = ctx.budget(160, 2000)
-    seeds = [(ID, ctx.seed, ctx.tier, i) for i in range(n)]
+    n = ctx.budget(250, 2000)
+    corpus = io.corpus_items(ID)
+    ctx.stat("corpus-cases", len(corpus))
+    seeds = corpus + [(ID, ctx.seed, ctx.tier, i) for i in range(n)]
     cases = ctx.pmap(_run_case, seeds, chunksize=1)
     lines, owners = [], []
     for ci, c in enumerate(cases):
@@ -318,10 +395,20 @@ def run(ctx):
                 ctx.case(("buf", ctx.seed, ci), nontrivial=len(b["real"]["steps"]) > 0)
         if ci < 2:
             ctx.sample({"sessions": c["world"]["sessions"][:2], "cfgs": [r["cfg"] for r in c["runs"]]})
+    # a document that kills a sub-writer process
+    frng = random.Random("%s:%s:mpfail" % (ID, ctx.seed))
+    fparams = [io.gen_mp_failure(frng) for _ in range(2 if ctx.tier == "quick" else 8)]
+    for r in ctx.pmap(_run_mpfail, fparams, chunksize=1):
+        check_mp_failure(ctx, r)
 
 
 def replay(ctx, rec):
     case = rec.get("case", {})
+    if "mpfail" in case:
+        check_mp_failure(ctx, _run_mpfail(case["mpfail"]))
+        for v in ctx.violations:
+            print(v["signature"], "expected:", str(v["expected"])[:500], "observed:", str(v["observed"])[:500])
+        return bool(ctx.violations)
     world, cfg = case.get("world"), case.get("cfg")
     if world is None or cfg is None:
         print("no world/cfg in record")
